@@ -14,24 +14,24 @@ NOTE = ("Trusted base: CPython 3.12 semantics of the constructs modelled; the en
 # Rules added after rounds 2 and 3 (DESIGN.md 10.9 / 10.10); appended to the level text of each entry.
 ADDENDA = {
     "C01": "Added: (R01b) the shared-suffix scan is confined to what follows the shared prefix in both sequences; (R01h) no truthiness tests on nodes.",
-    "C02": "Added: (R02g) leaf equality keeps booleans and numbers apart; (R02h) every part of a parsed XML element (incl. tail text) reaches the tree - known finding; (R03a, uncounted sub-edits) every sub-edit a compound lists is counted by its bounds, also through constructor-cached cost fields; a second recogniser accepts the two-row form of the distance table.",
-    "C03": "Added: (R03d) the bottom-right cell is exhausted before the path is reconstructed; (R03g) sizes bound the computed leaf costs (size-derived caps of compound edits are sound); (R03h) multiset leftovers are counted with multiplicity and the matcher keeps its assignment by position - known findings.",
-    "C04": "Added: (R04g) incomplete-matrix lower bound over two consecutive anti-diagonals; (R04h) the progress flag of EditDistance agrees with its interval, degenerate alignments are definitive; (R04i) EditCollection's cap-minus-improvements interval - known finding; R03d/R03g/R03h are shared.",
-    "C05": "Added: (R05d) edges are distinct before the matcher solves; (R05e) driver loops agree; (R05f) EditCollection.edits is re-entrant (yields by position); R03d/R03h shared.",
-    "C06": "Added: (E5d) an edit is rendered once - same-node forwarding handlers pass with_edits=False where the protocol can select them for an item; R01b shared.",
-    "C07": "Added: (R07d/e) no untyped or shared memo; (R07f) no default object repr reaches printed text or leaf costs; (R07g) process-wide installers (colorama.init) run at most once; (R07h) formatters restore the caller's printer; (R07i) builders for hash-ordered types canonicalise - known finding.",
-    "C08": "Added: (R08d) no ordering comparison steers the pairing of unordered collections; (R08e) the order behind the canonical sort is total; R02b/R02f/R02g shared (swapping unequal list elements costs something).",
-    "C09": "Added: (R09e) loaders never branch on the truth value of a parsed document; (R09f) sibling loaders open their file in the same (binary) mode.",
+    "C02": "Added: (R02g) leaf equality keeps booleans and numbers apart; (R02h) every part of a parsed XML element (incl. tail text) reaches the tree - known finding; (R03a, uncounted sub-edits) every sub-edit a compound lists is counted by its bounds, also through constructor-cached cost fields; a second recogniser accepts the two-row form of the distance table. Round 3: (R02c3) the prefix and suffix trims of the string distance cannot overlap; R01b shared.",
+    "C03": "Added: (R03d) the bottom-right cell is exhausted before the path is reconstructed; (R03g) sizes bound the computed leaf costs (size-derived caps of compound edits are sound); (R03h) multiset leftovers are counted with multiplicity and the matcher keeps its assignment by position - known findings. Round 3: (R03i) the pairs trimmed as shared prefix/suffix are listed as literal zero-cost matches (they are outside the cost matrix).",
+    "C04": "Added: (R04g) incomplete-matrix lower bound over two consecutive anti-diagonals; (R04h) the progress flag of EditDistance agrees with its interval, degenerate alignments are definitive; (R04i) EditCollection's cap-minus-improvements interval - known finding; R03d/R03g/R03h are shared. Round 3: R04i checks the exact slack formula; recorded findings are pinned to a digest of their construct, so an edit inside one is reported.",
+    "C05": "Added: (R05d) edges are distinct before the matcher solves; (R05e) driver loops agree; (R05f) EditCollection.edits is re-entrant (yields by position); R03d/R03h shared. Round 3: R05c covers continue/break paths (a candidate is dropped only under strict domination).",
+    "C06": "Added: (E5d) an edit is rendered once - same-node forwarding handlers pass with_edits=False where the protocol can select them for an item; R01b shared. Round 3: (E10b) rendering through sub-edits is selected by structure, never by a cost test; (R02c3) shared.",
+    "C07": "Added: (R07d/e) no untyped or shared memo; (R07f) no default object repr reaches printed text or leaf costs; (R07g) process-wide installers (colorama.init) run at most once; (R07h) formatters restore the caller's printer; (R07i) builders for hash-ordered types canonicalise - known finding. Round 3: (R07j) no memoised function returns an object that is refined in place.",
+    "C08": "Added: (R08d) no ordering comparison steers the pairing of unordered collections; (R08e) the order behind the canonical sort is total; R02b/R02f/R02g shared (swapping unequal list elements costs something). Round 3: R08e also requires natively equal values (True == 1) to share a rank class.",
+    "C09": "Added: (R09e) loaders never branch on the truth value of a parsed document; (R09f) sibling loaders open their file in the same (binary) mode. Round 3: R09e classifies conditional expressions and and/or selections; R09a: the options handed to the builder are the caller's.",
     "C10": "Added: R10a is a whole-program census (every list node built on any path reachable from a file type's build_tree carries the list options; copies keep them); R02g shared.",
     "C12": "Added: (R12c) formatter state is reset between prints.",
-    "C13": "Added: (E5c) no dispatch cycle; (H8) override compatibility; (H9) colour palettes; (H10) context managers release only what they acquired; (H11) leaf objects handed to library encoders are inside the encoder's type switch (read from the library source) - plist/null is a known finding; (H6) copy() while printing (XMLElement.copy_from) - known finding.",
+    "C13": "Added: (E5c) no dispatch cycle; (H8) override compatibility; (H9) colour palettes; (H10) context managers release only what they acquired; (H11) leaf objects handed to library encoders are inside the encoder's type switch (read from the library source) - plist/null is a known finding; (H6) copy() while printing (XMLElement.copy_from) - known finding. Round 3: (H6b) copy_from adopts the copies it is given; H11 carries per-value domains of partial encoders.",
     "C14": "Added: (R14e) newline convention; (R14f) no import-time Printer becomes a colour printer through a writer that always claims a terminal (--color reaches redirected output).",
-    "C15": "Added: (R15b) the sentinel dominates the largest weight by construction; (R15c) every dtype returned is justified by the containment test on this call's arguments and the caller checks the integer range; (R15d) the empty-table answer precedes weight arithmetic; (R15f) numeric limits of the float64 solver and of the float sentinel - known findings.",
+    "C15": "Added: (R15b) the sentinel dominates the largest weight by construction; (R15c) every dtype returned is justified by the containment test on this call's arguments and the caller checks the integer range; (R15d) the empty-table answer precedes weight arithmetic; (R15f) numeric limits of the float64 solver and of the float sentinel - known findings. Round 3: role discovery follows locals and `is None` flags.",
     "C16": "Added: (R16h) the max-heap overrides every base method that takes a raw key.",
-    "C17": "Added: (R17d) candidate heaps are cleared only where domination is established; (R17e) the search's goal branch reports progress, pruning against the caller's bounds is strict, make_distinct tightens until finite.",
+    "C17": "Added: (R17d) candidate heaps are cleared only where domination is established; (R17e) the search's goal branch reports progress, pruning against the caller's bounds is strict, make_distinct tightens until finite. Round 3: R17a checks the half-open interval encoding at every lookup; R17b/R01d are path-based.",
     "C18": "Added: (R18e) builders are stateless; (R18f) recursion keeps options; (R18g) leaf branches precede the key refusal in json.build_tree; (R18h) every concrete node class has structural __eq__/__hash__ (no identity comparison of payload wrappers); (R18i) hashable positions: ordering and hashability of container keys/members - known findings.",
-    "C19": "Added: (R19c) the whitelist mapping is read-only; (R19f) get_member refuses members of interpreter objects (generators, frames, code, functions, modules) with a type()-based guard; (R19g) classes cannot be subscripted; (R19h) no public node method exports the instance dict to live-node evaluation - known finding.",
-    "C20": "Added: R20b also covers a frozen table of implicit raises (C code, unguarded parser state) and explicit raises of project functions reached while building the tree; (R20d) strict JSON constants - known finding.",
+    "C19": "Added: (R19c) the whitelist mapping is read-only; (R19f) get_member refuses members of interpreter objects (generators, frames, code, functions, modules) with a type()-based guard; (R19g) classes cannot be subscripted; (R19h) no public node method exports the instance dict to live-node evaluation - known finding. Round 3: R19a requires the guarded name to be the very value used for the access; R19c judges get_value as a whole.",
+    "C20": "Added: R20b also covers a frozen table of implicit raises (C code, unguarded parser state) and explicit raises of project functions reached while building the tree; (R20d) strict JSON constants - known finding. Round 3: (R20e) loaders parse the whole document (prefix parsers are followed by an end-of-input test).",
 }
 
 # id -> (technique, level text, design ref)
